@@ -207,6 +207,32 @@ def check_clones(res, base, hist, one_base):
         if a != b:
             res.violation('original-aliases-clone:%s' % how, 'changing the original changed its %s: %s' % (what, diff(a, b)), one)
             continue
+        # the original is changed right after the clone was made, BEFORE anything of the clone has been looked at: the clone still is what
+        # the original was (nothing is copied lazily at the first access)
+        d5 = build(base, hist)
+        e5 = fp(build(base, hist))
+        c5 = clone(d5, how, base, hist)
+        mutate(d5)
+        g5 = fp(c5)
+        a, b = (meta_only(e5), meta_only(g5)) if how == 'view' else (e5, g5)
+        if a != b:
+            res.violation('original-aliases-unread-clone:%s' % how, 'the original was changed before its %s was first looked at: the clone shows the change: %s' % (what, diff(b, a)), one)
+            continue
+        # the single-event record d[i] (one-dimensional, all channels) of this state survives copying and pickling too
+        if how != 'reload':
+            d6 = build(base, hist)
+            if d6.shape[0] > 1:
+                rec = d6[1]
+                try:
+                    c6 = clone(rec, how, base, hist)
+                except Exception as e:
+                    res.violation('record-clone-raises:%s:%s' % (how, type(e).__name__), '%s of the single-event record d[1] of the %s sample after %s raised %s: %s' % (
+                        how, base, ' ; '.join(hist) or 'loading', type(e).__name__, e), one)
+                    continue
+                if fp(c6) != fp(rec):
+                    res.violation('record-clone-differs:%s' % how, '%s of the single-event record d[1] of the %s sample after %s differs from the record: %s' % (
+                        how, base, ' ; '.join(hist) or 'loading', diff(fp(c6), fp(rec))), one)
+                    continue
         # a second clone taken after the first one was changed still equals the original (nothing of the first is remembered)
         d3 = build(base, hist)
         h0 = fp(d3)
